@@ -145,6 +145,8 @@ class RealSem(Sem):
             return a[0]
         if kind in ("lt", "le", "gt", "ge", "eq", "ne"):
             x, y = a
+            if z3.is_bool(x) or z3.is_bool(y):
+                return {"eq": x == y, "ne": x != y}[kind]
             return {"lt": x < y, "le": x <= y, "gt": x > y, "ge": x >= y, "eq": x == y, "ne": x != y}[kind]
         if kind == "logical_and":
             return z3.And(a[0], a[1])
